@@ -352,13 +352,25 @@ def run_injected(rng, out, orc, known, nmax, fixed_n=None, fixed_mode=None, ssee
     k = rng.randint(1, 3)
     sc = Scenario(random.Random(sseed) if sseed is not None else rng, k, None, 0)
     probes = sc.probes()
-    mode = fixed_mode or rng.choice(["first", "rebuild", "miss"])
+    mode = fixed_mode or rng.choice(["first", "rebuild", "miss", "rebuild-linked"])
     n = fixed_n if fixed_n is not None else rng.randint(1, nmax)
     wit = {"kind": "build-injected", "k": k, "mode": mode, "line_event": n}
+    linked = mode == "rebuild-linked"
+    if linked:
+        mode = "rebuild"
     ov = sc.build(list(range(k)) if mode != "rebuild" else list(range(k - 1)) or [0])
     tags = list(range(k))
     if mode != "first":
         call(ov, probes[0])
+    child = None
+    if linked:
+        # a linked variant of the function, in use as well: an interrupt that hits the function's change must not
+        # leave the variant dispatching over the previous method set either
+        from ovld import Ovld
+
+        child = Ovld(mixins=[ov], linkback=True)
+        for r in ("obj", "fn"):
+            call(child, probes[0], r)
     tr = Tracer(n)
     old = sys.gettrace()
     sys.settrace(tr.glob)
@@ -399,6 +411,24 @@ def run_injected(rng, out, orc, known, nmax, fixed_n=None, fixed_mode=None, ssee
             else:
                 known(o, "D15:half-built-function-in-service", {**wit, "probe": p_i, "got": a, "fresh": r, "fired_in": getattr(tr, "stack", [])[:3]})
             break
+    if child is not None:
+        croute = rng.choice(["obj", "fn", "fn"])
+        gotc = [call(child, p, croute) for p in probes]
+        o["n"] += 1
+        o["nontrivial"] += 1
+        stack = getattr(tr, "stack", [])
+        for p_i, (a, r) in enumerate(zip(gotc, ref)):
+            if cfg_error(a):
+                continue
+            if not same(a, r):
+                w2 = {**wit, "route": croute, "probe": p_i, "got": a, "fresh": r, "fired_in": stack[:4], "who": "linked variant"}
+                if stack and stack[0] in ("_update", "_register", "unregister", "_set"):
+                    # between the change of the definitions and the rebuild of the function, or between the rebuild
+                    # of the function and that of its variant: the few instructions of finding D34
+                    known(o, "D34:interrupt-between-change-and-rebuild", w2)
+                else:
+                    o["viol"].append({"law": "an interrupt during the rebuild of a function left its linked variant dispatching over the previous method set", **w2})
+                break
     return True
 
 
@@ -433,7 +463,7 @@ def replay_injected(w):
 
         rng.randint, rng.choice = randint, choice
         run_injected(rng, out, orc, known, 10**6)
-    return bool(hits)
+    return bool(hits) or any(o["viol"] for o in out["oracles"].values())
 
 
 def replay_witness(w):
@@ -502,7 +532,7 @@ def worker(payload):
         # resolution is a failure point
         for _ in range(3):
             sseed = rng.randrange(2**31)
-            for mode in ("first", "rebuild", "miss"):
+            for mode in ("first", "rebuild", "miss", "rebuild-linked"):
                 line = 1
                 while line < 5000:
                     fired = run_injected(random.Random(sseed + 1), out, orc, known, 0, fixed_n=line, fixed_mode=mode, sseed=sseed)
